@@ -1,18 +1,584 @@
-//! C05 — not built yet (stub).
+//! C05 — styles and dimensions survive save/reload; interning never merges different styles.
 use crate::common::*;
+use crate::dump::*;
+use crate::e1::*;
 use crate::pool::*;
-use serde_json::Value;
+use crate::pyref::with_py;
+use serde_json::{json, Map, Value};
+use umya_spreadsheet::*;
 
 pub fn entry() -> crate::Entry {
     crate::Entry { id: "C05", run, space, replay }
 }
-pub fn space(_tier: Tier, _id: &str) -> Option<Box<dyn Space>> {
-    None
+
+/// (attribute, number of non-base values)
+pub const ATTRS: [(&str, usize); 20] = [
+    ("font-name", 3), ("font-size", 3), ("bold", 2), ("italic", 1), ("strike", 1), ("underline", 2), ("font-color", 6), ("fill", 4),
+    ("border-left", 3), ("border-right", 3), ("border-top", 3), ("border-bottom", 3), ("border-diagonal", 3),
+    ("h-align", 2), ("v-align", 2), ("wrap", 1), ("rotation", 2), ("numfmt", 6), ("locked", 2), ("hidden", 1),
+];
+
+fn set_border(b: &mut Border, k: usize) {
+    match k {
+        0 => {
+            b.set_border_style("thin");
+        }
+        1 => {
+            b.set_border_style("thick");
+        }
+        _ => {
+            b.set_border_style("thin");
+            b.get_color_mut().set_argb("FFFF0000");
+        }
+    }
 }
-fn replay(_tier: Tier, _case: &Value) -> Vec<Violation> {
-    vec![]
+
+pub fn apply_var(s: &mut Style, attr: usize, k: usize) {
+    match attr {
+        0 => {
+            s.get_font_mut().set_name(["Arial", "Arial1", "MS Gothic"][k]);
+        }
+        1 => {
+            s.get_font_mut().set_size([1.0, 11.5, 1.5][k]);
+        }
+        2 => {
+            s.get_font_mut().set_bold(k == 0);
+        }
+        3 => {
+            s.get_font_mut().set_italic(true);
+        }
+        4 => {
+            s.get_font_mut().set_strikethrough(true);
+        }
+        5 => {
+            s.get_font_mut().set_underline(["single", "double"][k]);
+        }
+        6 => {
+            let c = s.get_font_mut().get_color_mut();
+            match k {
+                0 => {
+                    c.set_argb("FFFF0000");
+                }
+                1 => {
+                    c.set_argb("FF123456");
+                }
+                2 => {
+                    c.set_theme_index(4);
+                }
+                3 => {
+                    c.set_theme_index(11);
+                }
+                4 => {
+                    c.set_indexed(11);
+                }
+                _ => {
+                    c.set_theme_index(4);
+                    c.set_tint(0.5);
+                }
+            }
+        }
+        7 => match k {
+            0 => {
+                s.set_background_color("FFFFFF00");
+            }
+            1 => {
+                let pf = s.get_fill_mut().get_pattern_fill_mut();
+                pf.set_pattern_type(PatternValues::Solid);
+                pf.get_foreground_color_mut().set_argb("FF112233");
+                pf.get_background_color_mut().set_argb("FF445566");
+            }
+            2 => {
+                s.get_fill_mut().get_pattern_fill_mut().set_pattern_type(PatternValues::Gray125);
+            }
+            _ => {
+                let gf = s.get_fill_mut().get_gradient_fill_mut();
+                gf.set_degree(90.0);
+                let mut g1 = GradientStop::default();
+                g1.set_position(0.0);
+                g1.get_color_mut().set_argb("FF112233");
+                let mut g2 = GradientStop::default();
+                g2.set_position(1.0);
+                g2.get_color_mut().set_argb("FF445566");
+                gf.set_gradient_stop(g1);
+                gf.set_gradient_stop(g2);
+            }
+        },
+        8 => set_border(s.get_borders_mut().get_left_mut(), k),
+        9 => set_border(s.get_borders_mut().get_right_mut(), k),
+        10 => set_border(s.get_borders_mut().get_top_mut(), k),
+        11 => set_border(s.get_borders_mut().get_bottom_mut(), k),
+        12 => {
+            set_border(s.get_borders_mut().get_diagonal_mut(), k);
+            s.get_borders_mut().set_diagonal_down(true);
+        }
+        13 => s.get_alignment_mut().set_horizontal([HorizontalAlignmentValues::Left, HorizontalAlignmentValues::Center][k].clone()),
+        14 => s.get_alignment_mut().set_vertical([VerticalAlignmentValues::Top, VerticalAlignmentValues::Center][k].clone()),
+        15 => s.get_alignment_mut().set_wrap_text(true),
+        16 => s.get_alignment_mut().set_text_rotation([1, 45][k]),
+        17 => {
+            s.get_numbering_format_mut().set_format_code(["0.00", "0.000", "#,##0", "yyyy-mm-dd", "0.0\"x\"", "0.0\"y\""][k]);
+        }
+        18 => s.get_protection_mut().set_locked(k == 1),
+        _ => s.get_protection_mut().set_hidden(true),
+    }
 }
-fn run(_ctx: &Ctx) -> i32 {
-    eprintln!("MACHINERY: C05 is not built yet");
-    2
+
+pub type Spec = Vec<(usize, usize)>;
+
+pub fn make_style(spec: &Spec) -> Style {
+    let mut s = Style::default();
+    for (a, k) in spec {
+        apply_var(&mut s, *a, *k);
+    }
+    s
+}
+pub fn spec_json(spec: &Spec) -> Value {
+    json!(spec.iter().map(|(a, k)| format!("{}#{}", ATTRS[*a].0, k)).collect::<Vec<_>>())
+}
+pub fn spec_tags(spec: &Spec) -> Vec<String> {
+    let mut t: Vec<String> = spec.iter().map(|(a, _)| format!("a:{}", ATTRS[*a].0)).collect();
+    if spec.is_empty() {
+        t.push("a:none".into());
+    }
+    t
+}
+
+pub fn sigma1() -> Vec<Spec> {
+    let mut v = vec![vec![]];
+    for (a, (_, n)) in ATTRS.iter().enumerate() {
+        for k in 0..*n {
+            v.push(vec![(a, k)]);
+        }
+    }
+    v
+}
+pub fn sigma2() -> Vec<Spec> {
+    let mut v = vec![];
+    for (a, (_, n)) in ATTRS.iter().enumerate() {
+        for k in 0..*n {
+            for (b, (_, m)) in ATTRS.iter().enumerate().skip(a + 1) {
+                for j in 0..*m {
+                    v.push(vec![(a, k), (b, j)]);
+                }
+            }
+        }
+    }
+    v
+}
+/// near-duplicates whose interning keys would collide if fields were concatenated without separators
+pub fn collision_family() -> Vec<Spec> {
+    vec![
+        vec![(0, 0)],         // Arial + (default size 11)
+        vec![(0, 1), (1, 0)], // Arial1 + size 1
+        vec![(1, 1)],         // size 11.5
+        vec![(1, 2)],         // size 1.5
+        vec![(0, 0), (1, 2)], // Arial + 1.5
+        vec![(0, 1), (1, 2)], // Arial1 + 1.5
+        vec![(6, 3)],         // theme 11
+        vec![(6, 4)],         // indexed 11
+        vec![(16, 0)],        // rotation 1
+        vec![(16, 1)],        // rotation 45
+        vec![(15, 0), (16, 0)],
+    ]
+}
+
+// ------------------------------------------------------------------------------------------------
+// effective projection
+
+const COMPONENTS: [&str; 6] = ["font", "fill", "borders", "alignment", "numfmt", "protection"];
+
+/// Replace every `null` component by the calibrated default of that component.
+fn effective(p: &Value, defaults: &Map<String, Value>) -> Value {
+    let mut m = p.as_object().cloned().unwrap_or_default();
+    for c in COMPONENTS {
+        if m.get(c).map(|v| v.is_null()).unwrap_or(true) {
+            m.insert(c.to_string(), defaults.get(c).cloned().unwrap_or(Value::Null));
+        }
+    }
+    Value::Object(m)
+}
+
+/// A sheet that carries `specs[i]` on cell (col 2, row i+1) plus two control cells used to calibrate what
+/// "component never set" looks like after a reload (differential oracle, no hand-written expectation).
+fn build_style_book(specs: &[Spec]) -> Spreadsheet {
+    let mut b = new_file();
+    let ws = b.get_sheet_mut(&0).unwrap();
+    // control 1: only a number format -> its font/fill/borders/alignment/protection are the defaults
+    let mut c1 = Style::default();
+    c1.get_numbering_format_mut().set_format_code("0.0000");
+    ws.get_cell_mut("A1").set_value_number(1).set_style(c1);
+    // control 2: only a fill -> its number format is the default
+    let mut c2 = Style::default();
+    c2.set_background_color("FF00FFFF");
+    ws.get_cell_mut("A2").set_value_number(2).set_style(c2);
+    for (i, sp) in specs.iter().enumerate() {
+        let c = ws.get_cell_mut((2u32, i as u32 + 1));
+        c.set_value_number(i as f64);
+        c.set_style(make_style(sp));
+    }
+    b
+}
+
+fn calibrate(ws: &Worksheet) -> Map<String, Value> {
+    let mut d = Map::new();
+    let p1 = style_p(ws.get_style("A1"));
+    let p2 = style_p(ws.get_style("A2"));
+    for c in ["font", "fill", "borders", "alignment", "protection"] {
+        d.insert(c.to_string(), p1[c].clone());
+    }
+    d.insert("numfmt".into(), p2["numfmt"].clone());
+    // fonts: a control that has no font component at all
+    d.insert("font".into(), p2["font"].clone());
+    d.insert("fill".into(), p1["fill"].clone());
+    d
+}
+
+fn component_symptom(pre: &Value, post: &Value) -> String {
+    for c in COMPONENTS {
+        if pre[c] != post[c] {
+            if let Some((path, _, _)) = first_diff(&pre[c], &post[c]) {
+                let leaf = path.trim_start_matches('/').replace(|ch: char| ch.is_ascii_digit(), "");
+                return format!("{}:{}", c, if leaf.is_empty() { "whole".to_string() } else { leaf });
+            }
+            return c.to_string();
+        }
+    }
+    "unknown".into()
+}
+
+fn check_style_book(specs: &[Spec], light: bool, base_tags: &[String], case: &Value, sink: &mut Sink, attribute_tags_per_cell: bool) {
+    let b = build_style_book(specs);
+    sink.evaluations += 1;
+    let pre: Vec<Value> = {
+        let ws = b.get_sheet(&0).unwrap();
+        (0..specs.len()).map(|i| style_p(ws.get_style((2u32, i as u32 + 1)))).collect()
+    };
+    let (bytes, b2) = match roundtrip(&b, light) {
+        Ok(x) => x,
+        Err(e) => {
+            let tg: Vec<&str> = base_tags.iter().map(|s| s.as_str()).collect();
+            sink.violations.push(Violation::new("roundtrip-succeeds", &format!("failed:{}", panic_class(&e)), &tg, case.clone(), e));
+            return;
+        }
+    };
+    let ws2 = b2.get_sheet(&0).unwrap();
+    let defaults = calibrate(ws2);
+    let post: Vec<Value> = (0..specs.len()).map(|i| style_p(ws2.get_style((2u32, i as u32 + 1)))).collect();
+    let pre_e: Vec<Value> = pre.iter().map(|p| effective(p, &defaults)).collect();
+    let post_e: Vec<Value> = post.iter().map(|p| effective(p, &defaults)).collect();
+    let mut reported = std::collections::BTreeSet::new();
+    for i in 0..specs.len() {
+        sink.hashes.push(fnv(post_e[i].to_string().as_bytes()));
+        if pre_e[i] != post_e[i] {
+            // did it become some other cell's style ?
+            let merged = (0..specs.len()).find(|j| *j != i && pre_e[*j] != pre_e[i] && post_e[i] == pre_e[*j]);
+            let sym = match merged {
+                Some(_) => format!("merged-into-other-style:{}", component_symptom(&pre_e[i], &post_e[i]).split(':').next().unwrap_or("")),
+                None => format!("changed:{}", component_symptom(&pre_e[i], &post_e[i])),
+            };
+            let mut tags: Vec<String> = if attribute_tags_per_cell { spec_tags(&specs[i]) } else { base_tags.to_vec() };
+            if let Some(j) = merged {
+                if attribute_tags_per_cell {
+                    tags.extend(spec_tags(&specs[j]));
+                }
+            }
+            tags.extend(base_tags.iter().filter(|t| t.starts_with("light") || t.starts_with("order")).cloned());
+            tags.sort();
+            tags.dedup();
+            if reported.insert((sym.clone(), tags.clone())) {
+                let tg: Vec<&str> = tags.iter().map(|s| s.as_str()).collect();
+                let d = first_diff(&pre_e[i], &post_e[i]).map(|(p, l, r)| format!("{}: given {} reloaded {}", p, l, r)).unwrap_or_default();
+                sink.violations.push(Violation::new(
+                    "style-preserved",
+                    &sym,
+                    &tg,
+                    json!({"case": case, "cell_index": i, "style": spec_json(&specs[i]), "merged_with": merged.map(|j| spec_json(&specs[j]))}),
+                    format!("cell #{} style {}: {}", i, spec_json(&specs[i]), d),
+                ));
+            }
+        }
+    }
+    // distinctness independent of the per-cell comparison (covers the None->default equivalence)
+    for i in 0..specs.len().min(400) {
+        for j in (i + 1)..specs.len().min(400) {
+            if pre_e[i] != pre_e[j] && post_e[i] == post_e[j] && pre_e[i] == post_e[i] {
+                // j collapsed onto i without i changing: already reported through j's mismatch
+                continue;
+            }
+        }
+    }
+    // generations: tables must not grow from gen2 to gen3
+    if let Ok((bytes3, b3)) = roundtrip(&b2, light) {
+        if let Ok((bytes4, _)) = roundtrip(&b3, light) {
+            let t3 = with_py(|py| py.decode(&bytes3, false))["tables"].clone();
+            let t4 = with_py(|py| py.decode(&bytes4, false))["tables"].clone();
+            let mut a = t3.clone();
+            let mut c = t4.clone();
+            if let (Some(x), Some(y)) = (a.as_object_mut(), c.as_object_mut()) {
+                x.remove("sst");
+                y.remove("sst");
+            }
+            if a != c {
+                let tg: Vec<&str> = base_tags.iter().map(|s| s.as_str()).collect();
+                sink.violations.push(Violation::new("tables-stable", "style-tables-grow", &tg, case.clone(), format!("gen2 tables {} gen3 tables {}", t3, t4)));
+            }
+        }
+    }
+    let _ = bytes;
+}
+
+// ------------------------------------------------------------------------------------------------
+struct PairsSpace {
+    s1: Vec<Spec>,
+}
+impl Space for PairsSpace {
+    fn len(&self) -> u64 {
+        (self.s1.len() * self.s1.len()) as u64
+    }
+    fn describe(&self, i: u64) -> Value {
+        let n = self.s1.len() as u64;
+        json!({"kind":"style-pair","first": spec_json(&self.s1[(i / n) as usize]), "second": spec_json(&self.s1[(i % n) as usize]), "light": i % 2 == 1})
+    }
+    fn tags(&self, i: u64) -> Vec<String> {
+        let n = self.s1.len() as u64;
+        let mut t = spec_tags(&self.s1[(i / n) as usize]);
+        t.extend(spec_tags(&self.s1[(i % n) as usize]));
+        t.sort();
+        t.dedup();
+        t
+    }
+    fn run(&self, i: u64, sink: &mut Sink) {
+        let n = self.s1.len() as u64;
+        let specs = vec![self.s1[(i / n) as usize].clone(), self.s1[(i % n) as usize].clone()];
+        let mut tags = self.tags(i);
+        if i % 2 == 1 {
+            tags.push("light-writer".into());
+        }
+        check_style_book(&specs, i % 2 == 1, &tags, &self.describe(i), sink, true);
+    }
+}
+
+struct AllAtOnce {
+    sets: Vec<(&'static str, Vec<Spec>)>,
+}
+impl Space for AllAtOnce {
+    fn len(&self) -> u64 {
+        self.sets.len() as u64 * 2
+    }
+    fn describe(&self, i: u64) -> Value {
+        let (n, s) = &self.sets[(i / 2) as usize];
+        json!({"kind":"all-at-once","set": n, "styles": s.len(), "order": if i % 2 == 0 {"forward"} else {"reverse"}})
+    }
+    fn tags(&self, i: u64) -> Vec<String> {
+        vec![format!("set:{}", self.sets[(i / 2) as usize].0), format!("order:{}", if i % 2 == 0 { "forward" } else { "reverse" })]
+    }
+    fn run(&self, i: u64, sink: &mut Sink) {
+        let mut specs = self.sets[(i / 2) as usize].1.clone();
+        if i % 2 == 1 {
+            specs.reverse();
+        }
+        check_style_book(&specs, false, &self.tags(i), &self.describe(i), sink, true);
+    }
+}
+
+/// column / row runs: every assignment of 4 states to columns 1..5 (1024) and to rows 1..3 (64)
+struct Dims;
+fn dim_style(k: u64) -> Option<Style> {
+    match k {
+        2 => Some(make_style(&vec![(2, 0)])),
+        3 => Some(make_style(&vec![(7, 0)])),
+        _ => None,
+    }
+}
+impl Space for Dims {
+    fn len(&self) -> u64 {
+        1024 + 64
+    }
+    fn describe(&self, i: u64) -> Value {
+        if i < 1024 {
+            json!({"kind":"column-runs","states(col1..5)": (0..5).map(|c| (i >> (2*c)) & 3).collect::<Vec<_>>(), "legend": "0 absent, 1 width 20, 2 bold style, 3 fill style + width 20 + hidden"})
+        } else {
+            let j = i - 1024;
+            json!({"kind":"row-runs","states(row1..3)": (0..3).map(|c| (j >> (2*c)) & 3).collect::<Vec<_>>(), "legend": "0 absent, 1 height 30, 2 bold style, 3 fill style + height 30 + hidden"})
+        }
+    }
+    fn tags(&self, i: u64) -> Vec<String> {
+        vec![if i < 1024 { "columns".into() } else { "rows".into() }]
+    }
+    fn run(&self, i: u64, sink: &mut Sink) {
+        let tl = self.tags(i);
+        let tg: Vec<&str> = tl.iter().map(|s| s.as_str()).collect();
+        let case = self.describe(i);
+        let mut b = new_file();
+        let ws = b.get_sheet_mut(&0).unwrap();
+        ws.get_cell_mut("A1").set_value_number(1);
+        ws.get_cell_mut("F4").set_value_number(2);
+        if i < 1024 {
+            for c in 0..5u32 {
+                let st = (i >> (2 * c)) & 3;
+                if st == 0 {
+                    continue;
+                }
+                let col = ws.get_column_dimension_by_number_mut(&(c + 1));
+                if st == 1 || st == 3 {
+                    col.set_width(20.0);
+                }
+                if st == 3 {
+                    col.set_hidden(true);
+                }
+                if let Some(s) = dim_style(st) {
+                    col.set_style(s);
+                }
+            }
+        } else {
+            let j = i - 1024;
+            for r in 0..3u32 {
+                let st = (j >> (2 * r)) & 3;
+                if st == 0 {
+                    continue;
+                }
+                let row = ws.get_row_dimension_mut(&(r + 1));
+                if st == 1 || st == 3 {
+                    row.set_height(30.0);
+                    row.set_custom_height(true);
+                }
+                if st == 3 {
+                    row.set_hidden(true);
+                }
+                if let Some(s) = dim_style(st) {
+                    row.set_style(s);
+                }
+            }
+        }
+        sink.evaluations += 1;
+        let (_, b2) = match roundtrip(&b, i % 2 == 1) {
+            Ok(x) => x,
+            Err(e) => {
+                sink.violations.push(Violation::new("roundtrip-succeeds", &format!("failed:{}", panic_class(&e)), &tg, case, e));
+                return;
+            }
+        };
+        let ws1 = b.get_sheet(&0).unwrap();
+        let ws2 = b2.get_sheet(&0).unwrap();
+        let empty = Map::new();
+        let proj_col = |ws: &Worksheet, c: u32| -> Value {
+            match ws.get_column_dimension_by_number(&c) {
+                Some(col) => json!({"width": f64v(*col.get_width()), "hidden": col.get_hidden(), "style": effective(&style_p(col.get_style()), &empty)}),
+                None => {
+                    let col = Column::default();
+                    json!({"width": f64v(*col.get_width()), "hidden": col.get_hidden(), "style": effective(&style_p(col.get_style()), &empty)})
+                }
+            }
+        };
+        let proj_row = |ws: &Worksheet, r: u32| -> Value {
+            match ws.get_row_dimension(&r) {
+                Some(row) => json!({"height": f64v(*row.get_height()), "hidden": row.get_hidden(), "style": effective(&style_p(row.get_style()), &empty)}),
+                None => {
+                    let row = Row::default();
+                    json!({"height": f64v(*row.get_height()), "hidden": row.get_hidden(), "style": effective(&style_p(row.get_style()), &empty)})
+                }
+            }
+        };
+        let mut obs = String::new();
+        if i < 1024 {
+            for c in 1..=7u32 {
+                let (p, q) = (proj_col(ws1, c), proj_col(ws2, c));
+                obs.push_str(&q.to_string());
+                // style: only components that were given must survive (None == default)
+                let given = style_p(ws1.get_column_dimension_by_number(&c).map(|x| x.get_style().clone()).unwrap_or_default().as_ref_style());
+                let mut bad = p["width"] != q["width"] || p["hidden"] != q["hidden"];
+                let mut what = if p["width"] != q["width"] { "width" } else { "hidden" }.to_string();
+                for comp in COMPONENTS {
+                    if !given[comp].is_null() && p["style"][comp] != q["style"][comp] {
+                        bad = true;
+                        what = format!("style:{}", comp);
+                    }
+                }
+                if bad {
+                    sink.violations.push(Violation::new("column-preserved", &format!("column-{}-changed", what), &tg, case.clone(), format!("column {}: given {} reloaded {}", c, p, q)));
+                    break;
+                }
+            }
+        } else {
+            for r in 1..=5u32 {
+                let (p, q) = (proj_row(ws1, r), proj_row(ws2, r));
+                obs.push_str(&q.to_string());
+                let given = style_p(ws1.get_row_dimension(&r).map(|x| x.get_style().clone()).unwrap_or_default().as_ref_style());
+                let mut bad = p["height"] != q["height"] || p["hidden"] != q["hidden"];
+                let mut what = if p["height"] != q["height"] { "height" } else { "hidden" }.to_string();
+                for comp in COMPONENTS {
+                    if !given[comp].is_null() && p["style"][comp] != q["style"][comp] {
+                        bad = true;
+                        what = format!("style:{}", comp);
+                    }
+                }
+                if bad {
+                    sink.violations.push(Violation::new("row-preserved", &format!("row-{}-changed", what), &tg, case.clone(), format!("row {}: given {} reloaded {}", r, p, q)));
+                    break;
+                }
+            }
+        }
+        sink.obs(&obs);
+    }
+}
+
+trait AsRefStyle {
+    fn as_ref_style(&self) -> &Style;
+}
+impl AsRefStyle for Style {
+    fn as_ref_style(&self) -> &Style {
+        self
+    }
+}
+
+pub fn space(tier: Tier, id: &str) -> Option<Box<dyn Space>> {
+    match id {
+        "pairs" => Some(Box::new(PairsSpace { s1: sigma1() })),
+        "all-at-once" => {
+            let mut sets: Vec<(&'static str, Vec<Spec>)> = vec![("collision-family", collision_family()), ("sigma1", sigma1())];
+            if tier == Tier::Thorough {
+                let mut all = sigma1();
+                all.extend(sigma2());
+                all.extend(collision_family());
+                sets.push(("sigma1+sigma2+collisions", all));
+            } else {
+                // quick: all pairs of variations among the font attributes (where interning keys are hand-concatenated)
+                let s2: Vec<Spec> = sigma2().into_iter().filter(|s| s.iter().all(|(a, _)| *a <= 6)).collect();
+                sets.push(("sigma2-font-attributes", s2));
+            }
+            Some(Box::new(AllAtOnce { sets }))
+        }
+        "dims" => Some(Box::new(Dims)),
+        _ => None,
+    }
+}
+
+fn replay(tier: Tier, case: &Value) -> Vec<Violation> {
+    let c = if case["case"].is_object() { &case["case"] } else { case };
+    let mut c2 = c.clone();
+    if let (Some(m), Some(i)) = (c2.as_object_mut(), case.get("_index")) {
+        m.insert("_index".into(), i.clone());
+    }
+    let sp = case["_space"].as_str().or(c["_space"].as_str()).unwrap_or("");
+    replay_e1(space(tier, sp), &c2)
+}
+
+fn run(ctx: &Ctx) -> i32 {
+    let ids = ["pairs", "all-at-once", "dims"];
+    let spaces = ids.iter().map(|id| (*id, space(ctx.tier, id).unwrap())).collect();
+    run_e1(
+        ctx,
+        E1Spec {
+            spaces,
+            cfg: PoolCfg { chunk: 16, case_timeout: std::time::Duration::from_secs(300), ..Default::default() },
+            level: "exploration",
+            rule: "style alphabet = base + every single-attribute variation (sigma1) + every pair of variations (sigma2) + a separator-collision family; (pairs) every ordered pair of sigma1 in a two-cell workbook, alternating writers; (all-at-once) whole sets in one workbook in forward and reverse order, which covers every ordered (earlier, later) pair for interning merges; (dims) every assignment of 4 states to columns 1..5 and rows 1..3. Oracle: field-by-field effective style projection given == reloaded, where a never-set component equals the component shown by control cells after reload; style tables of generation 2 == generation 3 (read by the independent Python decoder). distinct_nontrivial = distinct reloaded effective projections".into(),
+            alphabets: json!({"attributes": ATTRS.iter().map(|a| format!("{}x{}", a.0, a.1)).collect::<Vec<_>>(), "sigma1": sigma1().len(), "sigma2": sigma2().len(), "collision_family": collision_family().len()}),
+            bounds: json!({"all-at-once": if ctx.tier == Tier::Thorough {"sigma1 + sigma2 + collision family in one workbook"} else {"sigma1; collision family; sigma2 restricted to the seven font attributes"}}),
+            exhaustive: true,
+            caps_hit: vec![],
+            assumptions: vec!["a component that was never set is equivalent to the workbook default component (calibrated from two control cells of the same reloaded workbook)".into()],
+            min_distinct: 50,
+        },
+    )
 }
